@@ -85,6 +85,10 @@ def join_table(ctx, facts):
         while n[0] == "conv":
             n = n[1]
         row = None
+        if n[0] == "agg" and n[1][0] == "adt" and n[1][2] == "Borrowed" and len(n[2]) == 1:
+            n = n[2][0]  # Cow::Borrowed(self.name()) is what `self.name().into()` builds
+            while n[0] == "conv":
+                n = n[1]
         if n[0] == "call" and n[1].endswith("::name") and n[2] == (("arg", 1),):
             row = ("Name", nsstate)
         elif n[0] == "agg" and n[1][0] == "adt" and n[1][2] == "Owned":
@@ -101,6 +105,15 @@ def join_table(ctx, facts):
                     ok0 = a0[0] == "some" and a0[1][0] == "call" and a0[1][1].endswith("::namespace")
                     ok2 = a2[0] == "call" and a2[1].endswith("::name")
                     row = ("Join", pieces[1][1], nsstate) if ok0 and ok2 else ("?", nshow(n)[:100])
+                elif pieces and len(pieces) == 3 and all(p_[0] == "display" for p_ in pieces):
+                    # "{}{}{}" with the separator passed as a char that is a constant on this path
+                    a0 = norm(pieces[0][1])
+                    a1 = norm(pieces[1][1])
+                    a2 = norm(pieces[2][1])
+                    ok0 = a0[0] == "some" and a0[1][0] == "call" and a0[1][1].endswith("::namespace")
+                    ok2 = a2[0] == "call" and a2[1].endswith("::name")
+                    sep = models.cchar(a1)
+                    row = ("Join", sep, nsstate) if ok0 and ok2 and sep is not None else ("?", nshow(n)[:100])
         if row is None:
             row = ("?", nshow(n)[:100])
         for v in vs:
@@ -147,7 +160,7 @@ def rule_combined(ctx):
     ctx.ob("COMBINED-TABLE", "no arm for a non-variant", not extra, detail=str(extra))
     # the input is used as given (as_ref only)
     body = facts.body(sk)
-    others = [models.callee_name(t["callee"]) for _, t in body.calls() if models.callee_name(t["callee"]).startswith("core::str::<impl str>::") and not models.callee_name(t["callee"]).endswith(("rsplit_once", "split_once"))]
+    others = [models.callee_name(t["callee"]) for _, t in body.calls() if models.callee_name(t["callee"]).startswith("core::str::<impl str>::") and not models.callee_name(t["callee"]).endswith(("rsplit_once", "split_once", "::find", "::rfind"))]
     ctx.ob("COMBINED-TABLE", "the combined name is not trimmed or otherwise rewritten before splitting", not others, fn=sk, detail=str(others))
 
 
